@@ -210,11 +210,12 @@ func probePoints(r *vproto.Rng, p []ring, n int) []geom.Point {
 	return pts
 }
 
-// emitKnown (default on; VERIF_C03_OP_FINDINGS=0 turns it off): also emit the two corpus lines on which the
+// emitKnown (default OFF until the coordinator has re-run bin/mkfindings so that KNOWN_FINDINGS.json carries the
+// `known` entry of findings/C03.json — a shared file this property may not write; VERIF_C03_OP_FINDINGS=1 turns it on): also emit the two corpus lines on which the
 // composite FixOrientation + op.Area of the unchanged tree is known to be wrong (2^-40: every coordinate
 // difference is below the absolute tolerance 1e-9); they are matched by the `known` signature
 // `SPEC opfix-\S*-tol:xy op\.Area-after-FixOrientation` of findings/C03.json
-var emitKnown = os.Getenv("VERIF_C03_OP_FINDINGS") != "0"
+var emitKnown = os.Getenv("VERIF_C03_OP_FINDINGS") == "1"
 
 func genOp(out *bufio.Writer, seed uint64, tier string) {
 	r := vproto.NewRng(seed ^ 0x0c03f1e1d)
